@@ -439,15 +439,17 @@ bool comp_add_to_dc(zckCtx *zck, zckComp *comp, const char *src,
                 (long long unsigned) comp->dc_data_loc);
     zck_log(ZCK_LOG_DEBUG, "Adding %llu bytes to decompressed buffer",
             (long long unsigned) src_size);
-    memcpy(temp, comp->dc_data + comp->dc_data_loc,
-           comp->dc_data_size - comp->dc_data_loc);
+    if(comp->dc_data_size - comp->dc_data_loc > 0)
+        memcpy(temp, comp->dc_data + comp->dc_data_loc,
+               comp->dc_data_size - comp->dc_data_loc);
     free(comp->dc_data);
     comp->dc_data_size -= comp->dc_data_loc;
     comp->dc_data_loc = 0;
     comp->dc_data = temp;
 
     /* Copy new uncompressed data into comp */
-    memcpy(comp->dc_data + comp->dc_data_size, src, src_size);
+    if(src_size > 0)
+        memcpy(comp->dc_data + comp->dc_data_size, src, src_size);
     comp->dc_data_size += src_size;
     return true;
 }
